@@ -57,21 +57,20 @@ type svMat struct {
 // ranks in the byte order of the address universe (order preserving, so "sorted by address"
 // means the same on both sides).
 type sview struct {
-	Tot          map[int]*big.Int
-	VD           map[[2]int]*big.Int
-	Eff          map[int]*big.Int
-	Bnd          map[int]*big.Int
-	Mat          map[int64][]svMat
-	Vals         map[int]*svRec
-	Frozen       map[int]bool
-	Req          map[int]bool
-	Purge        map[int]int64
-	Delayed      map[int64]map[int]*big.Int
-	Bal          map[int]*big.Int
-	IterVals     map[int]bool     // validator records ValidatorStore.Iterate enumerates (committed v_ key, not deleted in the cache)
-	Status       map[int][2]int64 // es__vss_: {isActive, height}
-	ReqSameBlock map[int]bool     // accused by a request created in the block being executed
-	Foreign      []string         // stake records naming an address outside the universe (must stay empty)
+	Tot      map[int]*big.Int
+	VD       map[[2]int]*big.Int
+	Eff      map[int]*big.Int
+	Bnd      map[int]*big.Int
+	Mat      map[int64][]svMat
+	Vals     map[int]*svRec
+	Frozen   map[int]bool
+	Req      map[int]bool
+	Purge    map[int]int64
+	Delayed  map[int64]map[int]*big.Int
+	Bal      map[int]*big.Int
+	IterVals map[int]bool     // validator records ValidatorStore.Iterate enumerates (committed v_ key, not deleted in the cache)
+	Status   map[int][2]int64 // es__vss_: {isActive, height}
+	Foreign  []string         // stake records naming an address outside the universe (must stay empty)
 }
 
 type stakeActors struct {
@@ -612,42 +611,29 @@ func (e *stakeExec) view() *sview {
 		}
 	}
 	s := e.A.decodeStake(m)
-	e.overlayVisible(s, m, true)
+	e.overlayVisible(s, m)
 	return s
 }
 
-// overlayVisible corrects the two sets that the implementation obtains by *iterating* the store.
-// State.IterateRange enumerates the keys of the committed tree only (storage/state.go: "we can't
-// get the key for anything that's only in the cache") and reads their current values:
-//   - CheckRequestExists does not see an allegation request created earlier in the same block
-//     (`Req` is what the unstake guard sees; the requests of this block go to ReqSameBlock);
+// overlayVisible corrects the set that the implementation obtains by *iterating* the store with
+// State.IterateRange, which enumerates the keys of the committed tree only (storage/state.go: "we
+// can't get the key for anything that's only in the cache") and reads their current values:
 //   - ValidatorStore.Iterate (frozen-owner guard of WITHDRAW, 92417eb) does not see a validator
 //     record created in the running block (`IterVals`).
-func (e *stakeExec) overlayVisible(s *sview, m map[string]string, sameBlock bool) {
-	s.ReqSameBlock = map[int]bool{}
-	vis := map[int]bool{}
+//
+// The allegation requests are different since d2f2af2: IterateRequests uses IterateRangeAll (tree
+// keys plus the pending keys of the block cache / open session), so CheckRequestExists — the
+// UNSTAKE guard and the duplicate check of ALLEGATION — sees every request of the decoded view,
+// also one opened earlier in the same block (`Req` is left as decoded).
+func (e *stakeExec) overlayVisible(s *sview, m map[string]string) {
 	iter := map[int]bool{}
-	for k, v := range m {
-		_, committed := e.committed[k]
-		switch {
-		case strings.HasPrefix(k, "es__ark_"):
-			ar := &evidence.AllegationRequest{}
-			if err := persistent.Deserialize([]byte(v), ar); err == nil {
-				if r, ok := e.A.rank[ar.MaliciousAddress.String()]; ok {
-					if committed {
-						vis[r] = true
-					} else if sameBlock {
-						s.ReqSameBlock[r] = true
-					}
-				}
-			}
-		case strings.HasPrefix(k, "v_") && len(k) == 22 && committed:
+	for k := range m {
+		if _, committed := e.committed[k]; committed && strings.HasPrefix(k, "v_") && len(k) == 22 {
 			if r, ok := e.A.rank[AddrStr([]byte(k[2:]))]; ok {
 				iter[r] = true
 			}
 		}
 	}
-	s.Req = vis
 	s.IterVals = iter
 }
 
@@ -666,7 +652,7 @@ func (e *stakeExec) checkView() *sview {
 		}
 	}
 	s := e.A.decodeStake(m)
-	e.overlayVisible(s, m, false)
+	e.overlayVisible(s, m)
 	return s
 }
 
